@@ -318,7 +318,7 @@ def check_c12(res, tier, replay):
     rng = random.Random(vlib.seed() + 12)
     vlib.apply_obligations(res, 'C12')
     n = 150 if tier == 'quick' else 4000
-    names = ['a', 'b', 'c', 'd', 'e']
+    names = ['a', 'b.x', 'c', 'brk.b', 'e']      # dotted tickers: the file-system target lists its assets from file names
     cases = []
     if replay:
         cases = [tuple(c) for c in json.load(open(replay)).get('cases', [])]
@@ -346,7 +346,10 @@ def check_c12(res, tier, replay):
                 src_spec = put(src_spec, list(range(first - rng.randrange(0, 3), 12 + rng.randrange(1, 5))))
                 if assets != '-' and zn not in assets.split(','):
                     assets = assets + ',' + zn
-            cases.append((workers, rng.randrange(0, 30), assets, fs, ft, impl, rng.choice([1, 2, 2, 3]), src_spec, tgt_spec))
+            runs = rng.choice([1, 2, 2, 3])
+            if (fs != '-' or ft != '-') and rng.random() < 0.6:
+                runs = 1          # with a single run the effect of an injected fault on the OTHER assets stays visible
+            cases.append((workers, rng.randrange(0, 30), assets, fs, ft, impl, runs, src_spec, tgt_spec))
     lines = ['y%d SYNC %s' % (i, ' '.join(map(str, c))) for i, c in enumerate(cases)]
     go, model = vlib.run_go(lines), vlib.run_model(lines)
     # the same cases under the race detector (-race build of the harness)
@@ -395,7 +398,7 @@ def check_c13(res, tier, replay):
     vlib.apply_obligations(res, 'C13')
     n = 40 if tier == 'quick' else 900
     cases = []
-    strat_pool = ['bh', 'macd', 'rsi', 'trix', 'bop', 'vwma', 'at1', 'at2', 'at3', 'at5']
+    strat_pool = ['bh', 'macd', 'rsi', 'trix', 'bop', 'vwma', 'at1', 'at2', 'at3', 'at5', 'kdjA', 'kdjB']     # kdjA / kdjB share one Name()
     if replay:
         cases = [tuple(c) for c in json.load(open(replay)).get('cases', [])]
     else:
@@ -403,7 +406,10 @@ def check_c13(res, tier, replay):
             ss = rng.sample(strat_pool, rng.randrange(1, 5))
             if rng.random() < 0.35:
                 ss = rng.sample(['at1', 'at2', 'at3', 'at5', 'bh'], rng.randrange(2, 6))     # nearly equal outcomes in the tight price regime
-            cases.append((rng.choice([1, 2, 3, 4, 8, 16]), rng.choice(['rec', 'data', 'html']), rng.choice([20, 45, 365]), ','.join(ss),
+            if rng.random() < 0.25 and not ({'kdjA', 'kdjB'} <= set(ss)):
+                ss = [x for x in ss if x not in ('kdjA', 'kdjB')] + ['kdjA', 'kdjB']     # two strategies of the same name in one run
+                rng.shuffle(ss)
+            cases.append((rng.choice([1, 2, 3, 4, 8, 16]), rng.choice(['rec', 'data', 'html', 'html', 'htmlbad']), rng.choice([20, 45, 365, 150000]), ','.join(ss),
                           rng.randrange(1 << 30), rng.randrange(1, 9), rng.choice([15, 40, 70])))
     lines = ['b%d BT %s' % (i, ' '.join(map(str, c))) for i, c in enumerate(cases)]
     go = vlib.run_go(lines, nproc=4)
@@ -412,14 +418,14 @@ def check_c13(res, tier, replay):
     if okr:
         sub = [l for l, c in zip(lines, cases) if c[0] > 1][:25 if tier == 'quick' else 200]
         gr = vlib.run_go(sub, race=True, nproc=3, timeout=1500)
-        race_bad = [(k, v) for k, v in gr.items() if not v.startswith('ok fine')]
+        race_bad = [(k, v) for k, v in gr.items() if not v.startswith('ok fine') and v != 'ok runerr']
         race_bad += [('b%d' % cases.index(next(c for c in cases if c[0] > 1)), 'DATA RACE report: ' + r) for r in vlib.race_reports()[:3]]
     bad = 0
     cells = set()
     for i, c in enumerate(cases):
         g = go.get('b%d' % i, 'missing')
         cells.add((c[0], c[1], len(c[3].split(',')), c[5]))
-        if not g.startswith('ok fine'):
+        if not g.startswith('ok fine') and not (c[1] == 'htmlbad' and g == 'ok runerr'):
             bad += 1
             res.violation({'cases': [list(c)], 'go_output': g[:400],
                            'oracle': 'exactly one result per (asset, strategy) equal to the direct evaluation on the snapshots inside the look-back window; '
